@@ -117,7 +117,19 @@ NestedCases == UNION {Case("nested", [k |-> "SEQUENCE", comps |-> <<[n |-> "s", 
                            [f |-> "seq", fields |-> <<Fld("s", [f |-> "seq", fields |-> <<Fld("x", I("1"))>>]), Fld("c", [f |-> "choice", alt |-> "b", v |-> B(TRUE)]),
                                                        Fld("l", [f |-> "seqof", items |-> <<I("4"), I("5")>>])>>]) : x \in {1}}
 
-Families == <<IntCases, NamedCases, BoolCases, StrCases, BinCases, HexCases, BinRefCases, NamedBitCases, NamedBitRefCases, EnumCases,
+\* SET values: X.680 27.8 lets the component values come in any order -- every order of a complete value, and the orders
+\* of a value that leaves the DEFAULT component out; the components share one type, so that a positional reading is silent
+SetTy == [k |-> "SET", comps |-> <<[n |-> "major", ty |-> TInt, opt |-> "req", dflt |-> I("0")], [n |-> "minor", ty |-> TInt, opt |-> "req", dflt |-> I("0")],
+                                     [n |-> "patch", ty |-> TInt, opt |-> "default", dflt |-> I("9")]>>]
+SetFlds == <<Fld("major", I("1")), Fld("minor", I("2")), Fld("patch", I("3"))>>
+Orders3 == {<<1, 2, 3>>, <<1, 3, 2>>, <<2, 1, 3>>, <<2, 3, 1>>, <<3, 1, 2>>, <<3, 2, 1>>}
+SetCases == UNION {Case("set", SetTy, [f |-> "seq", fields |-> [i \in 1..3 |-> SetFlds[o[i]]]]) : o \in Orders3}
+              \cup UNION {Case("set", SetTy, [f |-> "seq", fields |-> fs]) : fs \in {<<SetFlds[1], SetFlds[2]>>, <<SetFlds[2], SetFlds[1]>>}}
+\* a SEQUENCE value of three components of one type, complete and without the DEFAULT one (order is fixed for SEQUENCE)
+Seq3Ty == [SetTy EXCEPT !.k = "SEQUENCE"]
+Seq3Cases == UNION {Case("seq", Seq3Ty, [f |-> "seq", fields |-> fs]) : fs \in {SetFlds, <<SetFlds[1], SetFlds[2]>>}}
+
+Families == <<SetCases, Seq3Cases, IntCases, NamedCases, BoolCases, StrCases, BinCases, HexCases, BinRefCases, NamedBitCases, NamedBitRefCases, EnumCases,
               OidCases, OidRefCases, RelOidCases, ChoiceCases, SeqCases, SeqOfCases, NestedCases>>
 
 Init == fam = 1
